@@ -3,12 +3,14 @@ package c01
 import (
 	"encoding/binary"
 	"encoding/json"
+	"errors"
 	"fmt"
 	"net/url"
 	"strconv"
 	"strings"
 	"sync"
 	"sync/atomic"
+	"syscall"
 	"time"
 
 	"github.com/AdguardTeam/AdGuardDNS/verif/tbench"
@@ -18,6 +20,10 @@ import (
 
 // configuredUDPMax is the MaxUDPRespSize the plain-DNS server is started with.
 const configuredUDPMax = 4096
+
+// udpReadBuffer is the default (and production) ConfigDNS.UDPSize, which the
+// benches keep.
+const udpReadBuffer = 512
 
 // serverReadTimeout is the read timeout the plain-DNS and DoT servers are
 // started with; decisiveWindow is how recently the harness must have written
@@ -137,9 +143,6 @@ func (s *udpSession) recv(wait time.Duration) (b []byte, err error) {
 }
 
 func (s *udpSession) exchange(in *input, wantAnswer bool) (o observation) {
-	if s.p.family == famUDP && len(in.wire) > 512 {
-		return observation{skipped: "larger than the default 512-byte UDP read buffer"}
-	}
 	if s.p.family == famDNSCryptUDP && len(in.wire) > 1000 {
 		return observation{skipped: "larger than the DNSCrypt library's UDP read buffer"}
 	}
@@ -164,7 +167,11 @@ func (s *udpSession) exchange(in *input, wantAnswer bool) (o observation) {
 		}
 
 		err := s.send(in.wire)
-		if err != nil {
+		if errors.Is(err, syscall.ECONNREFUSED) {
+			// The socket is connected to the listener, so this is the ICMP
+			// answer to an earlier datagram: nothing listens there any more.
+			return observation{res: tbench.Result{Outcome: tbench.Failed, Err: "listener gone: " + err.Error()}}
+		} else if err != nil {
 			s.e.infraFailure(s.p.name+":send", err)
 
 			return observation{ambiguous: "send failed: " + err.Error()}
@@ -180,6 +187,8 @@ func (s *udpSession) exchange(in *input, wantAnswer bool) (o observation) {
 			d, rErr := s.recv(left)
 			if rErr == tbench.ErrTimeout {
 				break
+			} else if errors.Is(rErr, syscall.ECONNREFUSED) {
+				return observation{res: tbench.Result{Outcome: tbench.Failed, Err: "listener gone: " + rErr.Error()}}
 			} else if rErr != nil {
 				s.e.infraFailure(s.p.name+":recv", rErr)
 
@@ -831,6 +840,17 @@ func (e *env) evalOne(p *pathDef, s session, in *input) {
 		e.evalJSON(p, s.(*dohSession), in)
 
 		return
+	}
+
+	if p.family == famUDP && len(in.wire) > udpReadBuffer {
+		// "UDPSize is the size of the buffers used to read incoming UDP
+		// messages": the server sees the first 512 bytes of a longer datagram,
+		// and the documented treatment is the one of those bytes.
+		cut := *in
+		cut.cls, cut.msg = classify(in.wire[:udpReadBuffer])
+		cut.shape = "udp-oversize|" + in.shape + "|" + cut.cls.String()
+		in = &cut
+		e.r.Bucket("udp_oversize_datagrams:"+p.name, 1)
 	}
 
 	exp := expect(p, in)
